@@ -43,6 +43,9 @@ C['C14'] = ("model_checking",
 C['C15'] = ("model_checking",
  "FindTop.tla: the upward walk of find_top_level_manifest against the declarative FindTopRef!OutermostOf for ALL chains of 3 (quick) / 4 (thorough) levels x Manifest none/plain/compressed x IGNORE none/path/ancestor/sibling/look-alike x device boundary x starting level x allow_compressed x allow_xdev; the same chains (exhaustive to depth 2/3, sampled to depth 6) are built as real directory chains with hostile names and real Manifest files in every compression format and run through the real function; TraceFindTop.tla judges each result.",
  "Device boundaries are simulated by rewriting st_dev in what gemato.find_top_level sees from os.stat/os.fstat.")
+C['C16'] = ("model_checking",
+ "Walker.tla models the directory walker shared by verification, update and the unregistered-Manifest scan as a stack of logical directories with their ancestor identities; TLC checks for ALL symlink graphs on 4 directories (up to 3 links, an IGNOREd edge, a foreign directory, one-file-system on/off) that the ancestor chain stays bounded (termination as safety) and that the outcome is the one WalkRef!Expected allows (loop iff a cycle is reachable through unpruned edges; cross-device iff a foreign directory is reachable). Random graphs of 2-6 directories with real symlinks and a real second file system (/dev/shm) are run through the three real walkers under a watchdog and judged by TraceWalk.tla.",
+ "Requires /dev/shm on another device for the cross-device part (skipped otherwise). IGNORE is only placed on edges with a unique logical path.")
 man = {
  "version": 1,
  "setup_cmd": "cd /verif && ./tools/setup.sh",
